@@ -23,6 +23,15 @@ pub fn unhex_n<const N: usize>(s: &str) -> [u8; N] {
 
 static QUIET: AtomicBool = AtomicBool::new(false);
 
+/// Panics raised at a source location inside the repository under test: (message, location).
+/// Filled by the panic hook; used by the top level to tell a library panic that no check caught
+/// (a verdict: none of the properties allows a crash) from a panic of the harness (machinery error).
+static LIB_PANICS: std::sync::Mutex<Vec<(String, String)>> = std::sync::Mutex::new(Vec::new());
+
+pub fn library_panic_location(message: &str) -> Option<String> {
+    LIB_PANICS.lock().ok()?.iter().rev().find(|(m, _)| m == message).map(|(_, l)| l.clone())
+}
+
 /// Install a panic hook that prints nothing while library calls are wrapped in `catch`.
 /// Panics of the harness itself (machinery errors) are still printed because they go through
 /// `machinery_error`, which writes before panicking.
@@ -31,7 +40,25 @@ pub fn install_quiet_panic_hook() {
         return;
     }
     let default = std::panic::take_hook();
+    let repo = crate::report::repo_root().to_string_lossy().to_string();
     std::panic::set_hook(Box::new(move |info| {
+        if let Some(loc) = info.location() {
+            if loc.file().starts_with(&repo) {
+                let p = info.payload();
+                let msg = if let Some(s) = p.downcast_ref::<&str>() {
+                    s.to_string()
+                } else if let Some(s) = p.downcast_ref::<String>() {
+                    s.clone()
+                } else {
+                    "panic (non-string payload)".to_string()
+                };
+                if let Ok(mut v) = LIB_PANICS.lock() {
+                    if v.len() < 4096 {
+                        v.push((msg, format!("{}:{}", &loc.file()[repo.len()..].trim_start_matches('/'), loc.line())));
+                    }
+                }
+            }
+        }
         if std::env::var_os("VERIF_PANIC_VERBOSE").is_some() {
             default(info);
         }
